@@ -128,9 +128,13 @@ Definition only_plain_chars (s : text) : bool :=
   forallb (fun c => is_digit c || (c =? 46)%N || (c =? 45)%N || (c =? 43)%N) s.
 Definition parse_float_trunc (s : text) : option (option Z) :=
   if negb (only_plain_chars s) then
-    (* letters etc.: ParseFloat may accept inf/nan/exponents/hex; only texts without e/E/x/X/i/I/n/N/p/P/_ are surely rejected *)
-    if existsb (fun c => existsb (N.eqb c) [101;69;120;88;105;73;110;78;112;80;95;97;65;102;70;116;84;121;89]%N) s
-    then None else Some None
+    (* a float literal is digits with . e E + - _, a hex float (0x.. p..), or inf / infinity / nan in any case.
+       Surely rejected: a character that occurs in none of these, or no digit and no n/N at all.
+       Everything else outside the plain decimal grammar is left unmodelled. *)
+    let allowed := [101;69;120;88;112;80;95;105;73;110;78;102;70;116;84;121;89;97;65;98;66;99;67;100;68]%N in
+    if negb (forallb (fun c => is_digit c || (c =? 46)%N || (c =? 45)%N || (c =? 43)%N || existsb (N.eqb c) allowed) s) then Some None
+    else if negb (existsb is_digit s) && negb (existsb (fun c => (c =? 110)%N || (c =? 78)%N) s) then Some None
+    else None
   else
   let '(neg, body) := match s with
                       | 45%N :: r => (true, r)
